@@ -610,8 +610,8 @@ def build_all(ctx, want):
     jobs = {
         "kt": lambda: cbuild.build(ctx, "h_hkdf_key_toy", KEY_SRC, defines=["HX_TOY", "HX_PART_KEY"]),
         "kr": lambda: cbuild.build(ctx, "h_hkdf_key_real", KEY_SRC + REAL_SRC, defines=["HX_REAL", "HX_PART_KEY"], libs=["-lcrypto"]),
-        "st": lambda: cbuild.build(ctx, "h_hkdf_sub_toy", ["h_hkdf.c"], defines=["HX_TOY", "HX_PART_SUB"], libs=["-Wl,--gc-sections"], **gc),
-        "sr": lambda: cbuild.build(ctx, "h_hkdf_sub_real", ["h_hkdf.c", "src/common/md.c", "src/common/crypto.c"],
+        "st": lambda: cbuild.build(ctx, "h_hkdf_sub_toy", ["h_hkdf.c", "src/libcommon/fd.c"], defines=["HX_TOY", "HX_PART_SUB"], libs=["-Wl,--gc-sections"], **gc),
+        "sr": lambda: cbuild.build(ctx, "h_hkdf_sub_real", ["h_hkdf.c", "src/libcommon/fd.c", "src/common/md.c", "src/common/crypto.c"],
                                    defines=["HX_REAL", "HX_PART_SUB"], libs=["-Wl,--gc-sections", "-lcrypto"], **gc),
         "bin": lambda: cbuild.build(ctx, "mungekey", BIN_SRC, libs=SANX + ["-lcrypto"], sanitize=False, extra=SANX),
         "munged": lambda: cbuild.build(ctx, "munged", repo_glob(ctx, "munged/*.c") + repo_glob(ctx, "common/*.c", ("hkdf.c",)) +
